@@ -26,7 +26,7 @@ def plan(tier, seed, jobs):
 
 
 def run(ctx):
-    E.Engine(ctx, MONITORS, faults=False).run()
+    E.Engine(ctx, MONITORS, faults=False, hist_faults=True).run()
     from . import ctor
 
     ctor.run(ctx)
